@@ -363,6 +363,8 @@ def build_evidence(pid, tier, seed, pm, jobs, results, worlds, wall, known_hits,
         "samples": samples,
         "steps_executed": steps,
         "runs_per_hour": round(len(results) / max(wall, 1e-9) * 3600),
+        "slowest_run_wall_s": round(max([float(r.get("wall") or 0.0) for r in results] or [0.0]), 2),
+        "run_wall_limit_s": engine.RUN_TIMEOUT_S,
         "seeds": {"base": seed, "first": jobs[0]["seed"] if jobs else None,
                   "last": jobs[-1]["seed"] if jobs else None, "generated": len(jobs),
                   "skipped_by_time_cap": skipped},
